@@ -68,6 +68,11 @@ def n4_macros(src, log, panic_helper=None):
                 log.append(f"N4 {name}! -> proof obligation {rep[:60]}")
                 i = c + 1
                 continue
+            if name == "format" and len(path) == 1:
+                edits.append((toks[start].start, toks[c].end, "vx_format()"))
+                log.append("N4 format!(..) -> vx_format() [opaque String: message text is not part of any contract]")
+                i = c + 1
+                continue
             if name == "panic" and panic_helper:
                 edits.append((toks[start].start, toks[c].end, f"{panic_helper}()"))
                 log.append(f"N4 panic!(..) -> {panic_helper}() [obligation: unreachable]")
@@ -341,6 +346,51 @@ def n7_enumerate_collect(src, log):
         log.append(f"N7 E.enumerate().collect() -> vx_enumerate(E.collect()) [E = {' '.join(chain.split())[:70]}]")
 
 
+def n7_collect_result(src, log):
+    """let X: Result<Vec<_>, _> = E.collect();  ->
+         let __vx_cK: Vec<_> = E.collect(); /*vx:resK:mid*/ let X = vx_collect_results(__vx_cK); /*vx:resK:post*/
+    (collect into Result = Ok(all items) if none is Err, else the first Err)"""
+    kres = 0
+    while True:
+        toks = lex(src)
+        hit = None
+        for i, t in enumerate(toks):
+            if not (t.text == "let" and t.kind == "ident"):
+                continue
+            d = t.depth
+            # `: TYPE =`
+            k = i + 1
+            colon = eq = None
+            while k < len(toks) and not (toks[k].text == ";" and toks[k].depth == d):
+                if toks[k].depth == d and toks[k].text == ":" and colon is None and eq is None:
+                    colon = k
+                if toks[k].depth == d and toks[k].text == "=" and eq is None:
+                    eq = k
+                if toks[k].kind == "open":
+                    k = toks[k].mate
+                k += 1
+            semi = k
+            if colon is None or eq is None or semi >= len(toks):
+                continue
+            ann = "".join(src[toks[colon + 1].start:toks[eq - 1].end].split())
+            if ann != "Result<Vec<_>,_>":
+                continue
+            if not (toks[semi - 1].text == ")" and toks[semi - 2].text == "(" and toks[semi - 3].text == "collect" and toks[semi - 4].text == "."):
+                continue
+            hit = (i, colon, eq, semi)
+            break
+        if hit is None:
+            return src
+        i, colon, eq, semi = hit
+        expr = src[toks[eq + 1].start:toks[semi - 1].end]
+        kres += 1
+        name = src[toks[i + 1].start:toks[colon - 1].end]
+        rep = (f"let __vx_c{kres}: Vec<_> = {expr}; /*vx:res{kres}:mid*/ let {name} = vx_collect_results(__vx_c{kres}); "
+               f"/*vx:res{kres}:post*/")
+        src = src[:toks[i].start] + rep + src[toks[semi].end:]
+        log.append("N7 collect::<Result<Vec<_>,_>>() -> vx_collect_results(E.collect())")
+
+
 def n3_cast(src, log, target, helper, only=None):
     """E as <target>  ->  helper(E)   for a postfix-chain operand E"""
     while True:
@@ -492,6 +542,8 @@ def normalise(src, rules, log):
             src = n1_closure_patterns(src, log)
         elif r == "n7sum":
             src = n7_sum(src, log)
+        elif r == "n7res":
+            src = n7_collect_result(src, log)
         elif r == "n7enum":
             src = n7_enumerate_collect(src, log)
         elif r.startswith("n6:"):
